@@ -58,7 +58,7 @@ PROPS = {
             "not_covered": ["not covered: convergence as a liveness statement; notify's delivery guarantees"]},
     "C07": {"units": ["BLD", "ACT", "RELAY", "CLN", "CFG"], "level": "proof", "assume": ACTORS,
             "not_covered": ["not covered: the text of the error message"]},
-    "C08": {"units": ["ACT", "BLD", "RELAY", "CLN", "CFG"], "level": "proof", "assume": ACTORS,
+    "C08": {"units": ["ACT", "BLD", "RELAY", "CLN", "CFG", "INC"], "level": "proof", "assume": ACTORS,
             "not_covered": ["not covered: 'at least once' is C04's liveness"]},
     "C09": {"units": ["CFG", "CLN", "DOM"], "level": "proof", "assume": CFGA,
             "not_covered": ["not covered: YAML -> yaml::Project (A-yaml); str::split behind reference parsing (DOM unit, three assumed facts); termination of the import loader add_project (depends on the file system being finite; A-yaml)"]},
@@ -73,7 +73,7 @@ PROPS = {
             "not_covered": ["not applicable within C14: totality and strictness of parsing (serde_yaml, derive attributes, regexes) - third-party parser code with no contract within reach; only the uniqueness / import-name / injectivity half is proved"]},
     "C15": {"units": ["FS", "INC", "CLN", "WCH"], "level": "proof", "assume": ["A-std", "A-hash", "A-fs", "A-walkdir", "A-str", "A-adapters", "R1"],
             "not_covered": ["not covered: byte-level UTF-8 decoding of names (to_string_lossy / to_str are assumed total functions), symlink loops, the order of the listing, notify itself (C16)"]},
-    "C16": {"units": ["WCH", "RELAY"], "level": "proof", "assume": ["A-std", "A-chan", "A-notify", "A-str", "A-all"],
+    "C16": {"units": ["WCH", "RELAY", "FS"], "level": "proof", "assume": ["A-std", "A-chan", "A-notify", "A-str", "A-all", "A-walkdir", "A-adapters"],
             "not_covered": ["not covered: notify itself, recursion into directories created later; the byte-level UTF-8 decoding behind to_string_lossy (assumed total)"]},
     "C18": {"units": ["INC", "CFG", "DOM"], "level": "proof", "assume": INCA + ["A-yaml"],
             "not_covered": ["not covered: injectivity of the state-file name formatting (string reasoning); that dunce::canonicalize returns one name per directory (assumed contract of canonicalize_dir, whose text is fingerprinted)"]},
